@@ -7,7 +7,7 @@ PROPERTY = 'C04'
 FUNCTIONS_ENCODED = K.FUNCTIONS_ENCODED
 BOUNDS = {
     'quick': 'components A and B of 2 atoms each (symbolic adjacency and per-(pattern, atom) match flags, 2 patterns, optional '
-             'remap rules); the pair is their disjoint union with B shifted',
+             'remap rules, two correction patterns sharing one descriptor name with symbolic matches per component); the pair is their disjoint union with B shifted',
     'thorough': 'A and B of 2 atoms, 3 patterns',
 }
 STUBS = K.STUBS
@@ -34,9 +34,25 @@ def h_mixture(d: bool):
         for j in range(nb):
             adjU[(i, j + na)] = False
     flU = [flA[p] + flB[p] for p in range(P)]
-    rA = K.run_scheme(K.make_scheme(P, lambda m, p, a: flA[p][a], remaps=remaps), K.make_mol(na, adjA))
-    rB = K.run_scheme(K.make_scheme(P, lambda m, p, a: flB[p][a], remaps=remaps), K.make_mol(nb, adjB))
-    rU = K.run_scheme(K.make_scheme(P, lambda m, p, a: flU[p][a], remaps=remaps), K.make_mol(na + nb, adjU))
+    # correction descriptors: two patterns sharing one name; whether each matches in A / in B is symbolic
+    dA = [bool(B('Ad0')), False]        # pattern 0 may match in A, pattern 1 may match in B (same descriptor name)
+    dB = [False, bool(B('Bd1'))]
+
+    def other(which, off_a, off_b):
+        out = []
+        for k in range(2):
+            def fn(mol, k=k):
+                ms = []
+                if which in ('A', 'U') and dA[k]:
+                    ms.append((off_a + 0, off_a + 1))
+                if which in ('B', 'U') and dB[k]:
+                    ms.append((off_b + 0, off_b + 1))
+                return ms
+            out.append({'name': 'Corr', 'connectivity': K.FakePattern(fn)})
+        return out
+    rA = K.run_scheme(K.make_scheme(P, lambda m, p, a: flA[p][a], remaps=remaps, other=other('A', 0, 0)), K.make_mol(na, adjA))
+    rB = K.run_scheme(K.make_scheme(P, lambda m, p, a: flB[p][a], remaps=remaps, other=other('B', 0, 0)), K.make_mol(nb, adjB))
+    rU = K.run_scheme(K.make_scheme(P, lambda m, p, a: flU[p][a], remaps=remaps, other=other('U', 0, na)), K.make_mol(na + nb, adjU))
     for r in (rA, rB, rU):
         if r[0].startswith('raised'):
             return finish(False, r[0])
